@@ -11,7 +11,7 @@ import (
 
 // Items added, the workbook saved, then some or all of them deleted ("x intervening saves"): what the getter shows
 // for the live workbook, and for the workbook saved and reopened afterwards, is exactly what was not deleted.  Per
-// kind: comments, data validations, conditional formats, tables, hyperlinks, pictures, defined names; on one or two
+// kind: comments, data validations, conditional formats, tables, hyperlinks, pictures, form controls, defined names; on one or two
 // sheets; every subset of deletions over three items.
 type c18kind struct {
 	name string
@@ -108,6 +108,19 @@ func c18kinds() []c18kind {
 					if ps, _ := f.GetPictures(sh, c18cellOf(k)); len(ps) > 0 {
 						out = append(out, c18cellOf(k))
 					}
+				}
+				return out
+			}},
+		{"form control",
+			func(f *excelize.File, sh string, k int) error {
+				return f.AddFormControl(sh, excelize.FormControl{Cell: c18cellOf(k), Type: []excelize.FormControlType{excelize.FormControlButton, excelize.FormControlCheckBox, excelize.FormControlOptionButton}[k], Text: fmt.Sprintf("ctl %d", k)})
+			},
+			func(f *excelize.File, sh string, k int) error { return f.DeleteFormControl(sh, c18cellOf(k)) },
+			func(f *excelize.File, sh string) []string {
+				fcs, _ := f.GetFormControls(sh)
+				var out []string
+				for _, fc := range fcs {
+					out = append(out, fc.Cell)
 				}
 				return out
 			}},
